@@ -38,6 +38,13 @@ impl<'a> Tr<'a> {
                                 }
                                 Ok(vec![(lean_ident(&b), r.s)])
                             }
+                            Some(Var { kind: Kind::MutLocal, ty, .. }) => {
+                                let (r, rt) = self.expr(&a.right, env)?;
+                                if !assignable(&ty, &rt) {
+                                    return self.err(sp, format!("type of the value assigned to `{b}`"));
+                                }
+                                Ok(vec![(lean_ident(&b), r.s)])
+                            }
                             Some(Var { kind: Kind::Deferred { init: true }, .. }) => self.unsupported(sp, "second assignment to a variable (only deferred initialisation `let x; … x = e;`)"),
                             _ => self.unsupported(sp, "assignment (only to `self.f…`, through a mutable borrow of a Vec element, or deferred initialisation)"),
                         };
@@ -56,6 +63,13 @@ impl<'a> Tr<'a> {
                                     }
                                     let wb = self.write_back(&bor, &lean_ident(&b));
                                     return Ok(vec![(lean_ident(&b), r.s), wb]);
+                                }
+                                if let Some(Var { kind: Kind::ElemMut, ty, .. }) = self.lookup(env, &b).cloned() {
+                                    let (r, rt) = self.expr(&a.right, env)?;
+                                    if !assignable(&ty, &rt) {
+                                        return self.err(sp, format!("type of the value assigned to `*{b}`"));
+                                    }
+                                    return Ok(vec![(lean_ident(&b), r.s)]);
                                 }
                             }
                         }
@@ -93,6 +107,20 @@ impl<'a> Tr<'a> {
             }
             Expr::Binary(b) if matches!(b.op, BinOp::AddAssign(_) | BinOp::SubAssign(_)) => {
                 let left = self.strip(&b.left)?;
+                if let Some((x, segs)) = self.as_place(left) {
+                    if segs.is_empty() {
+                        if let Some(Var { kind: Kind::MutLocal, ty, .. }) = self.lookup(env, &x).cloned() {
+                            // x += e for a `let mut` local
+                            let (r, rt) = self.expr(&b.right, env)?;
+                            if self.effect_seen || !matches!((&ty, &rt), (Ty::Int(..), Ty::Int(..))) {
+                                return self.unsupported(sp, "compound assignment on a non-integer local");
+                            }
+                            let op = if matches!(b.op, BinOp::AddAssign(_)) { "+" } else { "-" };
+                            note!(self, arith, format!("line {}: `{}`", line_of(sp), self.src_text(sp)));
+                            return Ok(vec![(lean_ident(&x), format!("{} {op} {}", lean_ident(&x), r.arg()))]);
+                        }
+                    }
+                }
                 if self.as_place(left).map(|p| p.1.is_empty()).unwrap_or(true) {
                     return self.unsupported(sp, "compound assignment (only to `self.f`)");
                 }
@@ -125,7 +153,7 @@ impl<'a> Tr<'a> {
                     None => {
                         // `x.f(..)` for a `&mut` parameter / `self`: a method that changes its receiver
                         if let Some((b, segs)) = self.as_place(&m.receiver) {
-                            if segs.is_empty() && self.is_state_var(&b) {
+                            if segs.is_empty() && (self.is_state_var(&b) || matches!(self.lookup(env, &b), Some(Var { kind: Kind::MutLocal, .. }))) {
                                 self.method_value(m, env)?;
                                 if !self.effect_seen {
                                     return self.unsupported(sp, "call without effect as a statement:");
@@ -208,6 +236,34 @@ impl<'a> Tr<'a> {
             }
             _ => self.unsupported(sp, "statement"),
         }
+    }
+
+    /// the outer variables a statement changes, from the syntactic scan: assigned ones, and `let mut` locals that are the
+    /// receiver of a method call
+    fn changed_outer(&self, assigned: Vec<String>, lets: &[String], env: &Env, base: &[String], sp: Span) -> Res<Vec<String>> {
+        let mut vars = vec![];
+        for x in assigned {
+            let (x, recv_only) = match x.strip_prefix('@') {
+                Some(r) => (r.to_string(), true),
+                None => (x, false),
+            };
+            if x == "self" || base.contains(&x) || vars.contains(&x) {
+                continue;
+            }
+            match self.lookup(env, &x) {
+                Some(v) => {
+                    if recv_only && !matches!(v.kind, Kind::MutLocal) {
+                        continue;
+                    }
+                    if lets.contains(&x) {
+                        return self.err(sp, format!("outside the supported subset: `{x}` is assigned in this statement and also bound by a `let` / pattern inside it"));
+                    }
+                    vars.push(x);
+                }
+                None => {}
+            }
+        }
+        Ok(vars)
     }
 
     fn wants_value(&self, mode: Mode) -> bool {
@@ -325,8 +381,9 @@ impl<'a> Tr<'a> {
                     if !l.attrs.is_empty() {
                         return self.unsupported(l.span(), "attribute on a `let`");
                     }
+                    let let_mut = matches!(&l.pat, Pat::Ident(p) if p.by_ref.is_none() && p.mutability.is_some() && p.subpat.is_none() && l.init.is_some());
                     let (name, declared) = match &l.pat {
-                        Pat::Ident(p) if p.by_ref.is_none() && p.mutability.is_none() && p.subpat.is_none() => (p.ident.to_string(), None),
+                        Pat::Ident(p) if p.by_ref.is_none() && (p.mutability.is_none() || let_mut) && p.subpat.is_none() => (p.ident.to_string(), None),
                         Pat::Type(pt) => match &*pt.pat {
                             Pat::Ident(p) if p.by_ref.is_none() && p.mutability.is_none() && p.subpat.is_none() => (p.ident.to_string(), Some(self.ty(&pt.ty)?)),
                             _ => return self.unsupported(l.span(), "`let` pattern (only `let x = e;`, no `mut`)"),
@@ -390,10 +447,12 @@ impl<'a> Tr<'a> {
                         own.push(Chunk::Lines(vec![format!("let {} := {}  -- L{}", lean_ident(&name), v.s, line_of(l.span()))]));
                     }
                     let kind = match borrow {
+                        Some(_) if let_mut => return self.unsupported(l.span(), "`let mut` of a mutable borrow"),
                         Some(mut b) => {
                             b.value = lean_ident(&name);
                             Kind::MutBorrow(b)
                         }
+                        None if let_mut => Kind::MutLocal,
                         None => Kind::Plain,
                     };
                     env.push(Var { name, ty: t, kind });
@@ -495,17 +554,8 @@ impl<'a> Tr<'a> {
                         let mut lets = vec![];
                         assigned_in_expr(e, &mut assigned, &mut lets);
                         let mut vars: Vec<String> = self.state_base();
-                        for x in assigned {
-                            if x == "self" || vars.contains(&x) {
-                                continue;
-                            }
-                            if self.lookup(&env, &x).is_some() {
-                                if lets.contains(&x) {
-                                    return self.err(e.span(), format!("outside the supported subset: `{x}` is assigned in this statement and also bound by a `let` / pattern inside it"));
-                                }
-                                vars.push(x);
-                            }
-                        }
+                        let more = self.changed_outer(assigned, &lets, &env, &vars, e.span())?;
+                        vars.extend(more);
                         if vars.is_empty() {
                             return self.unsupported(e.span(), "`if`/`match` statement that can have no effect here");
                         }
@@ -555,6 +605,9 @@ impl<'a> Tr<'a> {
         if !fl.attrs.is_empty() || fl.label.is_some() {
             return self.unsupported(sp, "loop with a label or an attribute");
         }
+        if !matches!(self.strip(&fl.expr)?, Expr::Range(_)) {
+            return self.for_elems(fl, env, mode);
+        }
         let idx = match &*fl.pat {
             Pat::Wild(_) => None,
             Pat::Ident(p) if p.by_ref.is_none() && p.mutability.is_none() && p.subpat.is_none() => Some(p.ident.to_string()),
@@ -579,21 +632,11 @@ impl<'a> Tr<'a> {
         let mut lets = vec![];
         assigned_in_stmts(&fl.body.stmts, &mut assigned, &mut lets);
         let mut vars = self.state_base();
-        for x in assigned {
-            if x == "self" || vars.contains(&x) {
-                continue;
-            }
-            match self.lookup(env, &x) {
-                Some(Var { kind: Kind::Deferred { .. }, .. }) => return self.unsupported(sp, "deferred initialisation inside a loop:"),
-                Some(_) => {
-                    if lets.contains(&x) {
-                        return self.err(sp, format!("outside the supported subset: `{x}` is assigned in the loop and also bound by a `let` / pattern inside it"));
-                    }
-                    vars.push(x);
-                }
-                None => {}
-            }
+        let more = self.changed_outer(assigned, &lets, env, &vars, sp)?;
+        if more.iter().any(|x| matches!(self.lookup(env, x), Some(Var { kind: Kind::Deferred { .. }, .. }))) {
+            return self.unsupported(sp, "deferred initialisation inside a loop:");
         }
+        vars.extend(more);
         if vars.is_empty() {
             return self.unsupported(sp, "loop that can have no effect here:");
         }
@@ -643,6 +686,164 @@ impl<'a> Tr<'a> {
         } else {
             Ok(vec![Chunk::LetState(pat, call)])
         }
+    }
+
+    /// `for PAT in &mut V { body }` (the body changes nothing but the element): `V := List.map (fun PAT => body; PAT) V`;
+    /// `for PAT in &V { body }` / `in V.iter()` / `in v` (a list): `forEach V state (fun PAT state => body)`, a left fold
+    fn for_elems(&mut self, fl: &syn::ExprForLoop, env: &Env, mode: Mode) -> Res<Vec<Chunk>> {
+        let sp = fl.span();
+        let src = self.strip(&fl.expr)?;
+        // the source: (Lean list, element type, the place to store the mapped list into — for the `&mut` form)
+        enum Store {
+            Place(PlaceInfo),
+            Var(String),
+        }
+        let mut store: Option<Store> = None;
+        let (list, elem) = match src {
+            Expr::Reference(r) if r.mutability.is_some() => {
+                let pl = self.writable(&r.expr, env)?;
+                match pl.ty.clone() {
+                    Ty::Vec(t) => {
+                        let l = pl.read();
+                        store = Some(Store::Place(pl));
+                        (l, *t)
+                    }
+                    _ => return self.unsupported(sp, "loop over something that is not a Vec:"),
+                }
+            }
+            _ => {
+                let inner = match src {
+                    Expr::Reference(r) => &*r.expr,
+                    x => x,
+                };
+                let elem_mut = match self.as_place(inner) {
+                    Some((b, segs)) if segs.is_empty() => matches!(self.lookup(env, &b), Some(Var { kind: Kind::ElemMut, .. })).then_some(b),
+                    _ => None,
+                };
+                let (l, t) = self.expr(inner, env)?;
+                if self.effect_seen || !self.pre.is_empty() {
+                    return self.unsupported(sp, "effect or early exit in the source of a loop:");
+                }
+                match t {
+                    Ty::Vec(t) | Ty::Iter(t) => {
+                        if let Some(b) = elem_mut {
+                            store = Some(Store::Var(b));
+                        }
+                        (l.arg(), *t)
+                    }
+                    _ => return self.unsupported(sp, "loop (only `for x in 0..n`, over a Vec, or over `v.iter()`)"),
+                }
+            }
+        };
+        let mut env2 = env.clone();
+        let saved = (self.loop_ctx.take(), std::mem::replace(&mut self.ret, Ty::Unit), self.has_panic, self.match_depth, std::mem::take(&mut self.state), self.self_mut, std::mem::take(&mut self.mut_params));
+        let restore = |this: &mut Self, saved: (Option<(Vec<String>, bool)>, Ty, bool, usize, Vec<Vec<String>>, bool, Vec<String>)| {
+            this.loop_ctx = saved.0;
+            this.ret = saved.1;
+            this.has_panic = saved.2;
+            this.match_depth = saved.3;
+            this.state = saved.4;
+            this.self_mut = saved.5;
+            this.mut_params = saved.6;
+        };
+        {
+            use quote::ToTokens;
+            let mut ids = BTreeSet::new();
+            collect_idents(fl.body.to_token_stream(), &mut ids);
+            if tokens_have_panic(fl.body.to_token_stream()) || self.prims.iter().any(|p| p.panics && ids.contains(&p.name)) || self.sigs.iter().any(|s| s.has_panic && ids.contains(&s.name)) {
+                restore(self, saved);
+                return self.unsupported(sp, "loop over elements whose body can panic:");
+            }
+        }
+        if let Some(st) = store {
+            // ---- map: the pattern's names are the state of the body; `_` gets a name so that the element can be rebuilt
+            let p = match &*fl.pat {
+                Pat::Reference(r) => &*r.pat,
+                p => p,
+            };
+            let mut names: Vec<String> = vec![];
+            let mut bind = |this: &mut Self, q: &Pat, t: &Ty, env2: &mut Env| -> Res<()> {
+                let n = match q {
+                    Pat::Ident(i) if i.by_ref.is_none() && i.mutability.is_none() && i.subpat.is_none() => i.ident.to_string(),
+                    Pat::Wild(_) => this.fresh("x"),
+                    _ => return this.unsupported(sp, "loop pattern (only names, `_`, and a tuple of them)"),
+                };
+                env2.push(Var { name: n.clone(), ty: t.clone(), kind: Kind::ElemMut });
+                names.push(n);
+                Ok(())
+            };
+            let r = match (p, &elem) {
+                (Pat::Tuple(t), Ty::Tuple(ts)) if t.elems.len() == ts.len() => t.elems.iter().zip(ts).try_for_each(|(q, qt)| bind(self, q, qt, &mut env2)),
+                (q, t) => bind(self, q, t, &mut env2),
+            };
+            if let Err(x) = r {
+                restore(self, saved);
+                return Err(x);
+            }
+            self.loop_ctx = Some((names.clone(), false));
+            self.has_panic = false;
+            self.match_depth = 0;
+            self.self_mut = false; // nothing but the element may change
+            let pre_outer = self.take_pre();
+            let body = self.block(&fl.body.stmts, &env2, Mode::Tail, fl.body.span());
+            self.pre = pre_outer;
+            restore(self, saved);
+            let body = body?;
+            let pat = pat_of(&names);
+            let tmp = self.fresh("m");
+            let mut lines = vec![format!("List.map (fun {pat} =>  -- L{}: `for {} in {}`", line_of(sp), self.src_text(fl.pat.span()), self.src_text(fl.expr.span()))];
+            lines.extend(indent(indent(body)));
+            let last = lines.len() - 1;
+            lines[last] = match lines[last].find("  -- ") {
+                Some(c) => format!("{}) {list}{}", &lines[last][..c], &lines[last][c..]),
+                None => format!("{}) {list}", lines[last]),
+            };
+            let mut out = vec![Chunk::LetState(tmp.clone(), lines)];
+            let lets = match st {
+                Store::Place(pl) => self.store(&pl, &tmp, env),
+                Store::Var(b) => vec![(lean_ident(&b), tmp.clone())],
+            };
+            out.extend(Self::lets_to_chunks(lets, line_of(sp)));
+            return Ok(out);
+        }
+        // ---- fold
+        restore(self, saved);
+        let mut assigned = vec![];
+        let mut lets = vec![];
+        assigned_in_stmts(&fl.body.stmts, &mut assigned, &mut lets);
+        let mut vars = self.state_base();
+        let more = self.changed_outer(assigned, &lets, env, &vars, sp)?;
+        vars.extend(more);
+        if vars.is_empty() {
+            return self.unsupported(sp, "loop that can have no effect here:");
+        }
+        if vars.len() > 1 {
+            self.tuple_state = true;
+        }
+        let xpat = self.elem_pattern(&fl.pat, &elem, &mut env2, sp)?;
+        let saved = (self.loop_ctx.take(), std::mem::replace(&mut self.ret, Ty::Unit), self.has_panic, self.match_depth, std::mem::take(&mut self.state));
+        self.loop_ctx = Some((vars.clone(), false));
+        self.has_panic = false;
+        self.match_depth = 0;
+        let pre_outer = self.take_pre();
+        let body = self.block(&fl.body.stmts, &env2, Mode::Tail, fl.body.span());
+        self.pre = pre_outer;
+        self.loop_ctx = saved.0;
+        self.ret = saved.1;
+        self.has_panic = saved.2;
+        self.match_depth = saved.3;
+        self.state = saved.4;
+        let body = body?;
+        let _ = mode;
+        let pat = pat_of(&vars);
+        let mut lines = vec![format!("forEach {list} {pat} (fun {xpat} {pat} =>  -- L{}: `for {} in {}`", line_of(sp), self.src_text(fl.pat.span()), self.src_text(fl.expr.span()))];
+        lines.extend(indent(indent(body)));
+        let last = lines.len() - 1;
+        lines[last] = match lines[last].find("  -- ") {
+            Some(c) => format!("{}){}", &lines[last][..c], &lines[last][c..]),
+            None => format!("{})", lines[last]),
+        };
+        Ok(vec![Chunk::LetState(pat, lines)])
     }
 
     fn panic_lines(&mut self, mut out: Vec<Chunk>, m: &syn::Macro, sp: Span) -> Vec<String> {
@@ -820,6 +1021,9 @@ impl<'a> Tr<'a> {
             return self.unsupported(e.span(), "attribute");
         }
         self.begin_stmt();
+        if let Expr::Tuple(t) = &*m.expr {
+            return self.match_tuple(m, t, e, env, mode, rest);
+        }
         let (s, st) = self.expr(&m.expr, env)?;
         self.check_effect_order(&m.expr)?;
         let pre = self.take_pre();
@@ -974,6 +1178,116 @@ impl<'a> Tr<'a> {
         Ok(self.wrap(pre, lines))
     }
 
+    /// `match (a, b, …) { (P, Q, …) | … => e, … }` on fieldless enums of the file: an alternative inside a component
+    /// (`A::X | A::Y`) is multiplied out (Lean has alternatives between whole patterns only); every combination once
+    fn match_tuple(&mut self, m: &syn::ExprMatch, t: &syn::ExprTuple, e: &Expr, env: &Env, mode: Mode, rest: &[Stmt]) -> Res<Vec<String>> {
+        let mut scrut = vec![];
+        let mut enums: Vec<(String, Vec<String>)> = vec![];
+        for x in &t.elems {
+            let is_self = matches!(x, Expr::Path(p) if p.path.is_ident("self"));
+            let (l, ty) = match (is_self, self.lookup(env, "self")) {
+                (true, Some(v)) => (L::atom("self"), v.ty.clone()),
+                _ => self.expr(x, env)?,
+            };
+            let rust = match &ty {
+                Ty::Named { rust, .. } => rust.clone(),
+                _ => return self.unsupported(x.span(), "`match` on a tuple whose components are not fieldless enums of this file:"),
+            };
+            match self.enum_variants(&rust) {
+                Some(Ok(vs)) if vs.iter().all(|(_, f)| f.is_empty()) => enums.push((rust, vs.into_iter().map(|(n, _)| n).collect())),
+                _ => return self.unsupported(x.span(), "`match` on a tuple whose components are not fieldless enums of this file:"),
+            }
+            scrut.push(l.s);
+        }
+        if !self.pre.is_empty() {
+            return self.unsupported(e.span(), "early exit or effect in the scrutinee of a tuple `match`:");
+        }
+        let mut seen: Vec<Vec<String>> = vec![];
+        let mut lines = vec![format!("match {} with  -- L{}", scrut.join(", "), line_of(e.span()))];
+        self.match_depth += 1;
+        let mut res: Res<()> = Ok(());
+        'arms: for arm in &m.arms {
+            if arm.guard.is_some() || !arm.attrs.is_empty() {
+                res = self.unsupported(arm.span(), "match arm with a guard or an attribute");
+                break;
+            }
+            let alts: Vec<&Pat> = match &arm.pat {
+                Pat::Or(o) => o.cases.iter().collect(),
+                p => vec![p],
+            };
+            let mut combos: Vec<Vec<String>> = vec![];
+            for alt in alts {
+                let comps = match alt {
+                    Pat::Tuple(pt) if pt.elems.len() == enums.len() => pt,
+                    _ => {
+                        res = self.unsupported(alt.span(), "match pattern (only tuples of enum variants)");
+                        break 'arms;
+                    }
+                };
+                let mut partial: Vec<Vec<String>> = vec![vec![]];
+                for (cp, (en, vs)) in comps.elems.iter().zip(&enums) {
+                    let cps: Vec<&Pat> = match cp {
+                        Pat::Or(o) => o.cases.iter().collect(),
+                        Pat::Paren(p) => match &*p.pat {
+                            Pat::Or(o) => o.cases.iter().collect(),
+                            q => vec![q],
+                        },
+                        p => vec![p],
+                    };
+                    let mut names = vec![];
+                    for c in cps {
+                        match c {
+                            Pat::Path(pp) if pp.qself.is_none() && pp.path.segments.len() == 2 && (pp.path.segments[0].ident == en.as_str() || pp.path.segments[0].ident == "Self") && vs.contains(&pp.path.segments[1].ident.to_string()) => names.push(pp.path.segments[1].ident.to_string()),
+                            _ => {
+                                res = self.unsupported(c.span(), format!("match pattern (only `{en}::Variant`, no `_`)"));
+                                break 'arms;
+                            }
+                        }
+                    }
+                    let mut next = vec![];
+                    for p in &partial {
+                        for n in &names {
+                            let mut q = p.clone();
+                            q.push(n.clone());
+                            next.push(q);
+                        }
+                    }
+                    partial = next;
+                }
+                combos.extend(partial);
+            }
+            for c in &combos {
+                if seen.contains(c) {
+                    res = self.err(arm.pat.span(), format!("the combination ({}) is matched twice", c.join(", ")));
+                    break 'arms;
+                }
+                seen.push(c.clone());
+            }
+            let pats: Vec<String> = combos.iter().map(|c| c.iter().zip(&enums).map(|(v, (en, _))| self.lean_variant(en, v, &[])).collect::<Vec<_>>().join(", ")).collect();
+            let stmts: Vec<Stmt> = match &*arm.body {
+                Expr::Block(b) if b.label.is_none() && b.attrs.is_empty() => b.block.stmts.clone(),
+                other => vec![Stmt::Expr(other.clone(), None)],
+            };
+            match self.branch(&stmts, env, mode, rest, arm.body.span(), &[]) {
+                Ok(b) => {
+                    lines.push(format!("| {} =>  -- L{}", pats.join(" | "), line_of(arm.body.span())));
+                    lines.extend(indent(b));
+                }
+                Err(x) => {
+                    res = Err(x);
+                    break;
+                }
+            }
+        }
+        self.match_depth -= 1;
+        res?;
+        let total: usize = enums.iter().map(|(_, v)| v.len()).product();
+        if seen.len() != total {
+            return self.err(e.span(), format!("outside the supported subset: `match` on a tuple that covers {} of {} combinations", seen.len(), total));
+        }
+        Ok(self.paren_match(lines))
+    }
+
     // ---------------------------------------------------------------- functions
 
     /// `F: FnOnce(A) -> B` (inline or in the where clause) for every generic parameter of the fn
@@ -1068,8 +1382,9 @@ impl<'a> Tr<'a> {
         for a in &sig.inputs {
             match a {
                 FnArg::Receiver(r) => {
-                    if r.reference.is_none() || r.colon_token.is_some() {
-                        return self.unsupported(r.span(), "receiver (only `&self` and `&mut self`)");
+                    let copy_enum = matches!(self.enum_variants(ty_name), Some(Ok(vs)) if vs.iter().all(|(_, f)| f.is_empty()));
+                    if (r.reference.is_none() && !copy_enum) || r.colon_token.is_some() {
+                        return self.unsupported(r.span(), "receiver (only `&self` and `&mut self`; `self` by value for a fieldless enum)");
                     }
                     self.has_self = true;
                     self.self_mut = r.mutability.is_some();
